@@ -275,6 +275,7 @@ class Memory:
         self.ex = ex
         self.n = 0
         self.writes = None     # optional write log: list of (obj, off, n)
+        self.hook = None       # optional callback after every write: hook(obj, off, n)
 
     def alloc(self, size, zero=True, label='', lang='go'):
         self.n += 1
@@ -374,6 +375,8 @@ class Memory:
                     else:
                         del c[s]
         c[off] = (n, v)
+        if self.hook is not None:
+            self.hook(obj, off, n)
 
 # ----------------------------------------------------------------------------
 # program
